@@ -90,6 +90,20 @@ func TestC08Runs(t *testing.T) {
 		if oneOf(rt, "silent_world", false, true) {
 			sc.Script = FlowScript{Default: HopSpec{Silent: true}}
 		}
+		if sc.Serial() && oneOf(rt, "dup_storm", false, false, true) {
+			// a hop that keeps re-sending its answer (duplicates arriving faster than the poll interval) while a
+			// later TTL stays silent: the wait for the silent TTL must still end at its timeout
+			k := rapid.IntRange(sc.MinTTL, sc.MaxTTL).Draw(rt, "storm_ttl")
+			h := HopSpec{DelayUs: 1000}
+			every := int64(oneOf(rt, "storm_every_ms", 20, 50, 90)) * 1000
+			total := int64(sc.TimeoutMs)*1000*3 + 2_000_000
+			for at := every; at < total && len(h.DupsUs) < 4000; at += every {
+				h.DupsUs = append(h.DupsUs, at)
+			}
+			sc.Script.DestDist = 0
+			sc.Script.Default = HopSpec{Silent: true}
+			sc.Script.Hops = map[int]HopSpec{k: h}
+		}
 		if sc.Variant == "sack" && oneOf(rt, "handshake_trouble", false, false, true) {
 			// the handshake is never shown to the capture handle, or only near misses are: bounded by 500 ms
 			sc.Sack.NoSynAck = true
